@@ -265,6 +265,8 @@ structure Mon where
   forgot : Bool := false
   dne : List Nat := []          -- accounts the CA has disowned
   nerr : Nat := 0               -- failed storage operations in the whole observation
+  regW : List Nat := []         -- accounts whose registration has been stored successfully at some time
+  keyW : List Nat := []         -- accounts whose private key has been stored successfully at some time
   bad : Option String := none
 
 def flag (m : Mon) (why : String) : Mon := if m.bad.isSome then m else { m with bad := some why }
@@ -292,13 +294,13 @@ def monStep (m : Mon) (tok : String) : Mon :=
     if okTok res then
       let m := if complete && m.reg != ks.toNat? && !(m.reg.any (fun a => m.dne.contains a)) then
         flag m "stored-account-replaced-without-dne" else m
-      { m with reg := ks.toNat? }
+      { m with reg := ks.toNat?, regW := ks.toNat?.toList ++ m.regW }
     else { m with faulty := true }
   | ["W", _, "key", ks, res] =>
     if okTok res then
       let m := if complete && m.key != ks.toNat? && !(m.reg.any (fun a => m.dne.contains a)) then
         flag m "stored-account-replaced-without-dne" else m
-      { m with key := ks.toNat? }
+      { m with key := ks.toNat?, keyW := ks.toNat?.toList ++ m.keyW }
     else { m with faulty := true }
   | ["D", _, "reg", res] =>
     if okTok res then
@@ -312,6 +314,14 @@ def monStep (m : Mon) (tok : String) : Mon :=
     else { m with faulty := true, delKeyFault := true }
   | ["O", _, as, out] =>
     let m := if out = "dne" then { m with dne := (as.toNat?.toList) ++ m.dne } else m
+    -- faults or not: an order is placed only with an account that was written to storage,
+    -- registration and key (C20_orders_only_with_persisted) — never with one whose save failed
+    let m := match as.toNat? with
+      | some a =>
+        -- (the CA accepting the order shows that the client's key is a's key; otherwise only the
+        -- registration in use is known from the observation)
+        if m.regW.contains a && (out != "ok" || m.keyW.contains a) then m else flag m "order-with-account-never-persisted"
+      | none => m
     -- in a run without faults and forgetting, every order is placed with the stored account
     if !m.faulty && !m.forgot && complete && m.reg != as.toNat? then flag m "order-with-unstored-account" else m
   | ["F", _] => { m with forgot := true }
